@@ -14,6 +14,7 @@ import WpModel.Model.SheetC07
 import WpModel.Model.KeywordsC07
 import WpModel.Model.DescriptorsC07
 import WpModel.Model.NumericC07
+import WpModel.Model.TracksC07
 
 namespace Wp.Drive.C07
 open Wp Wp.Decl
@@ -339,6 +340,36 @@ partial def rule? : Sx → Option Sheet.Rule
     pure (.page (← id.nat?) (← optNat? n) (← d.bool?) ms)
   | _ => none
 
+/-! ### grid track lists -/
+
+def breadth? : Sx → Option Tracks07.Breadth
+  | .list [.atom "kw", s] => (str? s).map .kw
+  | .list [.atom "dim", v, .atom "none"] => v.rat?.map (.dim · none)
+  | .list [.atom "dim", v, u] => do pure (.dim (← v.rat?) (some (← str? u)))
+  | _ => none
+
+partial def track? : Sx → Option Tracks07.Track
+  | .list (.atom "names" :: ns) => (allSome str? ns).map .names
+  | .list [.atom "breadth", b] => (breadth? b).map .breadth
+  | .list [.atom "minmax", a, b] => do pure (.minmax (← breadth? a) (← breadth? b))
+  | .list [.atom "fit", v, .atom "none"] => v.rat?.map (.fitContent · none)
+  | .list [.atom "fit", v, u] => do pure (.fitContent (← v.rat?) (some (← str? u)))
+  | .list [.atom "rep", n, .list ts] => do pure (.rep (← str? n) (← allSome track? ts))
+  | .list [.atom "other", t] => (str? t).map .other
+  | _ => none
+
+def breadthSx : Tracks07.Breadth → Sx
+  | .kw s => .list [.atom "kw", .atom (encodeAtom s)]
+  | .dim v u => .list [.atom "dim", .atom (showRat v), .atom (showUnit u)]
+
+partial def trackSx : Tracks07.Track → Sx
+  | .names l => .list (.atom "names" :: l.map fun n => .atom (encodeAtom n))
+  | .breadth b => .list [.atom "breadth", breadthSx b]
+  | .minmax a b => .list [.atom "minmax", breadthSx a, breadthSx b]
+  | .fitContent v u => .list [.atom "fit", .atom (showRat v), .atom (showUnit u)]
+  | .rep n ts => .list [.atom "rep", .atom (encodeAtom n), .list (ts.map trackSx)]
+  | .other t => .list [.atom "other", .atom (encodeAtom t)]
+
 /-! ### the handler -/
 
 def handle (cmd : String) (args : List Sx) : Option String :=
@@ -467,6 +498,39 @@ def handle (cmd : String) (args : List Sx) : Option String :=
       | some (some (.kw k)) => "kw " ++ encodeAtom k
       | some (some (.num q)) => "num " ++ showRat q
       | some (some (.len s)) => showSpec (some s))
+  | "track-template", [fs, rfs, ex, ch, tpl] => do
+    let ctx : Len07.FontCtx := { fontSize := ← fs.rat?, rootFontSize := ← rfs.rat?, exRatio := ← ex.rat?,
+                                 chRatio := ← ch.rat? }
+    let tpl : Tracks07.Template ← (match tpl with
+      | .atom "none" => some .none
+      | .atom "subgrid" => some .subgrid
+      | .list (.atom "tracks" :: ts) => (allSome track? ts).map .tracks
+      | _ => none)
+    pure (match Tracks07.gridTemplate ctx tpl with
+      | .none => "none"
+      | .subgrid => "subgrid"
+      | .tracks ts => (Sx.list (.atom "tracks" :: ts.map trackSx)).render)
+  | "track-auto", [fs, rfs, ex, ch, .list ts] => do
+    let ctx : Len07.FontCtx := { fontSize := ← fs.rat?, rootFontSize := ← rfs.rat?, exRatio := ← ex.rat?,
+                                 chRatio := ← ch.rat? }
+    pure (Sx.list ((Tracks07.gridAuto ctx (← allSome track? ts)).map trackSx)).render
+  | "length-list", [name, .list toks] => do
+    let showPair (p : Len07.Spec × Len07.Spec) : String := showSpec (some p.1) ++ " | " ++ showSpec (some p.2)
+    pure (match Num07.validateLengthList (← str? name) (← allSome ltok? toks) with
+      | none => "not-length-list"
+      | some none => "invalid"
+      | some (some p) => "ok " ++ showPair p)
+  -- reference: which single tokens a <length> / <length-percentage> grammar with the given range takes
+  | "length-flags", [neg, pct, .list toks] => do
+    let neg ← neg.bool?
+    let pct ← pct.bool?
+    let toks ← allSome ltok? toks
+    pure (String.ofList (toks.map fun t => if (Len07.getLength neg pct t).isSome then '1' else '0'))
+  | "image-resolution", [tok, impl] => do
+    let implQ := impl.rat?.getD 0
+    pure (match Num07.imageResolution (← ltok? tok) with
+      | none => "invalid"
+      | some q => "ok " ++ (match relation implQ q with | "exact" => (if q.den ≤ 1000000 then "exact" else "near") | r => r))
   | "get-resolution", [tok, impl] => do
     let implQ := impl.rat?.getD 0
     pure (match Num07.getResolution (← ltok? tok) with
